@@ -244,3 +244,16 @@ def cmid(x):
 @task(check_valid="shallow")
 def cmid_s(x):
     return cleaf(x)
+
+
+@task()
+def spawn_r(x):
+    """Holds nothing itself; its result needs resource r."""
+    return rleaf(x)
+
+
+@dataclasses.dataclass
+class DCD:
+    """non-init field that instances leave at its declared default"""
+    a: object
+    b: object = dataclasses.field(init=False, default=0)
